@@ -510,6 +510,76 @@ def h_o5m_anonymous(I, job):
     I.reach('end')
 
 
+def h_pbf_blob(I, job):
+    """Blob message: raw payload (symbolic bytes) with raw_size / unknown fields before or after it; blobs without data"""
+    n = job.get('n', 3)
+    pay = [I.term(I.named('p%d' % k, 8), 8) for k in range(n)]
+    parts = {'R': f_bytes(1, pay), 'S': f_varint(2, n if n else 1), 'U': f_varint(9, 77), 'V': f_bytes(10, b'xy'), 'L': f_bytes(4, b'z'), 'E': f_bytes(1, []),
+             'Z': f_bytes(3, [z3.simplify(b ^ 0x5a) for b in pay]), 's': f_varint(2, n + 2)}
+    msg = []
+    for c in job['layout']: msg += parts[c]
+    buf = put(I, msg); cap = 16; out = I.new_obj(cap, 'out', 'heap'); ol = I.new_obj(4, 'ol', 'heap')
+    rc = I.concretize(I.call('@verif_decode_blob', [buf, len(msg), out, cap, ol]), 'rc'); I.observe('rc', rc)
+    lay = job['layout']
+    first = next((c for c in lay if c in 'RLE'), None)
+    if first is None and 'Z' in lay and 'S' in lay: first = 'R'           # zlib data with its raw_size, in either order
+    if first == 'R':
+        if rc != 0: raise Finding('rejects-valid', 'spec-conformant raw blob rejected (rc=%d)' % rc)
+        k = I.concretize(I.load(ol, i32), 'len'); I.observe('len', k)
+        if k != n: raise Finding('blob-payload', 'raw blob: %d payload bytes returned, %d encoded' % (k, n))
+        for j in range(n): I.obligation(I.term(I.load(out + j, i8), 8) == pay[j], 'blob-payload', 'raw blob payload byte %d differs' % j)
+    else:
+        if rc == 0 and first != 'E': raise Finding('blob-no-data', 'blob without usable data accepted')
+        if rc not in (0, 1): raise Finding('blob-no-data', 'blob without data: rc=%d (expected pbf_error)' % rc)
+    I.reach('end')
+
+
+KNOWN_FEATURES = (b'OsmSchema-V0.6', b'DenseNodes', b'HistoricalInformation')
+
+
+def setup_header(I):
+    for sfx in 'ilxjmy': I.overrides.pop('@_ZNSt7__cxx119to_stringE' + sfx, None)
+
+
+def h_pbf_header(I, job):
+    """HeaderBlock: required features (known ones in any order; one of symbolic bytes), optional features, writing program of symbolic bytes, unknown field"""
+    gen = [I.term(I.named('g%d' % k, 8), 8) for k in range(3)]
+    fl = job.get('flen', 0)
+    feat = [I.term(I.named('f%d' % k, 8), 8) for k in range(fl)]
+    parts = {'O': f_bytes(4, KNOWN_FEATURES[0]), 'D': f_bytes(4, KNOWN_FEATURES[1]), 'H': f_bytes(4, KNOWN_FEATURES[2]), 'X': f_bytes(4, feat),
+             's': f_bytes(5, b'Sort.Type_then_ID'), 'o': f_bytes(5, b'Foo'), 'G': f_bytes(16, gen), 'U': f_varint(40, 5), 'B': f_bytes(34, b'http://x')}
+    msg = []
+    for c in job['layout']: msg += parts[c]
+    buf = put(I, msg); cap = 256; out = I.new_obj(cap, 'out', 'heap'); ol = I.new_obj(4, 'ol', 'heap')
+    rc = I.concretize(I.call('@verif_header_block', [buf, len(msg), out, cap, ol]), 'rc'); I.observe('rc', rc)
+    lay = job['layout']
+    if 'X' in lay:
+        known = z3.Or([z3.And([feat[k] == kf[k] for k in range(fl)]) for kf in KNOWN_FEATURES if len(kf) == fl] + [z3.BoolVal(False)])
+        if rc == 0: I.obligation(known, 'required-feature', 'HeaderBlock with a required feature the reader does not know is accepted (the format requires rejecting it)')
+        elif rc == 1: I.obligation(z3.Not(known), 'rejects-valid', 'HeaderBlock with a known required feature rejected')
+        else: raise Finding('required-feature', 'rc=%d' % rc)
+        I.reach('end'); return
+    if rc != 0: raise Finding('rejects-valid', 'spec-conformant HeaderBlock rejected (rc=%d)' % rc)
+    exp = {}
+    no = 0
+    for c in lay:
+        if c == 'D': exp[b'pbf_dense_nodes'] = list(b'true')
+        if c in 'so':
+            v = b'Sort.Type_then_ID' if c == 's' else b'Foo'
+            exp[b'pbf_optional_feature_%d' % no] = list(v); no += 1
+            if c == 's': exp[b'sorting'] = list(b'Type_then_ID')
+        if c == 'G': exp[b'generator'] = gen
+        if c == 'B': exp[b'osmosis_replication_base_url'] = list(b'http://x')
+    want = []
+    for k in sorted(exp): want += list(k) + [ord('=')] + exp[k] + [10]
+    want += list(b'H=1\n' if 'H' in lay else b'H=0\n')
+    n = I.concretize(I.load(ol, i32), 'dumplen'); I.observe('dumplen', n)
+    if n != len(want): raise Finding('header-options', 'header dump has %d bytes, expected %d' % (n, len(want)))
+    for j, w in enumerate(want):
+        I.obligation(I.term(I.load(out + j, i8), 8) == w, 'header-options', 'header options differ from the HeaderBlock at dump byte %d' % j)
+    I.reach('end')
+
+
 def gen28(names):
     def g(rnd):
         return [{n: rnd.choice([0, 1, 2, 3, (1 << 28) - 1, rnd.getrandbits(28), rnd.getrandbits(10)]) for n in names} for _ in range(12)]
@@ -524,6 +594,15 @@ def harnesses(tier):
                 jobs=[dict(layout=l, header=h) for h in (False, True) for l in ('TD', 'DT', 'TID', 'TUD', 'UDIT', 'T', 'WD', 'DW')],
                 desc='decode_blob_header: fields in any order, with indexdata and an unknown field; datasize is a symbolic 28-bit value; wrong type and missing/zero datasize must be rejected',
                 bounds='datasize < 2^28, indexdata of 3 symbolic bytes', testgen=lambda rnd: [dict(datasize=rnd.choice([0, 1, 200, rnd.getrandbits(28)]), ix0=1, ix1=2, ix2=3) for _ in range(6)]),
+        Harness('pbf_blob', 'blob', h_pbf_blob,
+                jobs=[dict(layout=l) for l in ('R', 'SR', 'RS', 'UR', 'RU', 'VSR', 'URV', 'S', 'U', '', 'SL', 'E', 'SZ', 'ZS', 'UZVS', 'Z', 'ZU')] + [dict(layout='R', n=0), dict(layout='UR', n=7)],
+                desc='decode_blob on a Blob message with a raw payload of symbolic bytes and raw_size / unknown varint / unknown bytes fields before or after it: the returned view is exactly the payload; zlib_data with raw_size in either order is uncompressed into exactly raw_size bytes; blobs with no data field, an lzma field, only raw_size, or zlib_data without raw_size are rejected with pbf_error',
+                bounds='payload of 0, 3 or 7 symbolic bytes; libz uncompress() is replaced by an abstract codec with the same contract (byte-wise xor, Z_BUF_ERROR when the declared raw_size is too small)', testgen=lambda rnd: [dict(_job=j, p0=rnd.getrandbits(8), p1=rnd.getrandbits(8), p2=rnd.getrandbits(8)) for j in (0, 1, 2, 3, 4)]),
+        Harness('pbf_header_block', 'blob', h_pbf_header, setup=setup_header,
+                jobs=[dict(layout=l) for l in ('ODG', 'GDO', 'OHs', 'sOD', 'OosG', 'UOGU', 'OB', 'HDOsoBG', '')] + [dict(layout='OX', flen=k) for k in ((0, 5, 10, 14) if tier == 'quick' else (0, 1, 2, 3, 5, 9, 10, 11, 14, 15, 21, 22))] + [dict(layout='XD', flen=10)],
+                desc='decode_header_block: required features OsmSchema-V0.6 / DenseNodes / HistoricalInformation in any order set pbf_dense_nodes and the multiple-versions flag, optional features are numbered in file order and Sort.Type_then_ID sets sorting, the writing program (symbolic bytes) becomes generator, replication base url copied, unknown fields skipped; a required feature of symbolic bytes is accepted exactly if it is one of the three known strings',
+                bounds='feature strings of the listed lengths (<= 22 symbolic bytes), generator of 3 symbolic bytes; bbox (floating point) and replication timestamp (calendar) fields not in this harness',
+                testgen=lambda rnd: [dict(_job=j, g0=rnd.randint(32, 126), g1=rnd.randint(32, 126), g2=rnd.randint(32, 126)) for j in (0, 1, 2, 3, 4)]),
         Harness('o5m_string_table', 'decode', h_reftable, jobs=[{'start': s} for s in (0, 1, 7000, 14998, 14999)],
                 desc='o5m ReferenceTable ring law from cursor positions incl. the wrap-around: after adding A, B reference 1 = B and reference 2 = A; references 0 and > 15000 rejected; strings > 252 bytes not entered',
                 bounds='5 cursor positions, strings of 3 and 2 symbolic bytes', testgen=lambda rnd: [dict(a0=1, a1=2, a2=3, b0=4, b1=5)]),
